@@ -417,6 +417,65 @@ fn main() {
             }
             println!("RESULT enum:units-roundtrip {n} identifiers: lookup, Zinc and Hayson round trips agree");
         }
+        // ---- C16 enumerator: every ordered pair of database units: conversion succeeds exactly for equal dimensions (byte units among
+        //      themselves), equals (x*scale_a + offset_a - offset_b) / scale_b, comes back within rounding; anchors with known physical
+        //      values; + and - of Numbers fail exactly for two different units and otherwise keep the common unit; exit 3 on a mismatch
+        "enum:unit-convert" => {
+            use libhaystack::units::get_unit;
+            use libhaystack::val::Number;
+            let mut units: Vec<&'static libhaystack::units::Unit> = vec![];
+            for (_, u) in libhaystack::units::units_generated::UNITS.iter() { if !units.iter().any(|x| std::ptr::eq(*x, *u)) { units.push(*u); } }
+            let close = |a: f64, b: f64| (a - b).abs() <= 1e-9 * (1.0 + a.abs().max(b.abs()));
+            let x = 12.5f64;
+            let mut pairs = 0usize;
+            for a in &units { for b in &units {
+                let same_dim = a.dimensions == b.dimensions || (a.is_byte_unit() && b.is_byte_unit());
+                let r = a.convert_to(x, b);
+                pairs += 1;
+                match r {
+                    Ok(y) => {
+                        let want = ((x * a.scale + a.offset) - b.offset) / b.scale;
+                        let back = b.convert_to(y, a);
+                        if !same_dim || !(close(y, want) || (y.is_nan() && want.is_nan())) || !matches!(back, Ok(z) if close(z, x) || !z.is_finite() || !y.is_finite()) {
+                            println!("RESULT enum:unit-convert {x} {:?} -> {:?} = {y} (expected {want}, same dimension: {same_dim}), back = {back:?}", a.ids, b.ids);
+                            std::process::exit(3);
+                        }
+                    }
+                    Err(_) => if same_dim {
+                        println!("RESULT enum:unit-convert {:?} -> {:?} refused although both measure the same dimension", a.ids, b.ids);
+                        std::process::exit(3);
+                    }
+                }
+            } }
+            let u = |s: &str| get_unit(s).unwrap_or_else(|| panic!("unit {s}"));
+            for (from, v, to, want) in [("celsius", 100.0, "fahrenheit", 212.0), ("celsius", 0.0, "kelvin", 273.15), ("kelvin", 273.15, "fahrenheit", 32.0),
+                                        ("fahrenheit", 212.0, "celsius", 100.0), ("kilowatt", 1.0, "watt", 1000.0), ("hour", 1.0, "second", 3600.0), ("kilometer", 1.0, "meter", 1000.0)] {
+                let got = u(from).convert_to(v, u(to));
+                if !matches!(got, Ok(g) if (g - want).abs() < 1e-6 * (1.0 + want.abs())) {
+                    println!("RESULT enum:unit-convert {v} {from} -> {to} = {got:?}, the physical value is {want}");
+                    std::process::exit(3);
+                }
+            }
+            // + and -: same unit, one side without unit, two different units (incl. different units with the same numeric definition)
+            let mut sums = 0usize;
+            let sample: Vec<&'static libhaystack::units::Unit> = units.iter().copied().filter(|a| units.iter().any(|b| !std::ptr::eq(*a, *b) && a.dimensions == b.dimensions && a.scale == b.scale && a.offset == b.offset)).take(40)
+                .chain(units.iter().copied().take(25)).collect();
+            for a in &sample { for b in &sample {
+                let (na, nb) = (Number::make_with_unit(3.0, a), Number::make_with_unit(2.0, b));
+                let differ = !std::ptr::eq(*a, *b) && **a != **b;
+                for (r, want) in [(na + nb, 5.0), (na - nb, 1.0)] {
+                    sums += 1;
+                    let ok = match &r { Ok(n) => !differ && n.value == want && n.unit == Some(*a), Err(_) => differ };
+                    if !ok { println!("RESULT enum:unit-convert 3 {:?} (+/-) 2 {:?} = {r:?}; different units: {differ}", a.ids, b.ids); std::process::exit(3); }
+                }
+            } }
+            let plain = Number::make(2.0);
+            let with = Number::make_with_unit(3.0, u("meter"));
+            if !matches!(with + plain, Ok(n) if n.value == 5.0 && n.unit == Some(u("meter"))) || !matches!(plain + with, Ok(n) if n.value == 5.0 && n.unit == Some(u("meter"))) {
+                println!("RESULT enum:unit-convert 3m + 2 must keep the unit of the side that has one"); std::process::exit(3);
+            }
+            println!("RESULT enum:unit-convert {pairs} unit pairs, 7 physical anchors, {sums} sums and differences agree");
+        }
         // ---- C05 reader numbers: raw bytes of the harness inputs (which, value) -> the JSON spelling serde_json would hand over
         "json-visit" => {
             let which = unhex(&args[2])[0];
@@ -557,6 +616,60 @@ fn main() {
                 }
             }
             println!("RESULT enum:stream-chunks {cases} chunked decodes agree with buffer decoding");
+        }
+        // ---- C09 enumerator (evaluation half): `id *== @ref` over resolvers whose refs form chains and cycles of several shapes must
+        //      terminate with the right answer; a run that does not come back is reported as a hang by the caller's watchdog
+        "enum:wildcard-cycles" => {
+            use libhaystack::defs::namespace::DEFAULT_NS;
+            use libhaystack::filter::eval::{Eval, EvalContext};
+            use libhaystack::filter::path::Path;
+            use libhaystack::filter::{Filter, PathResolver};
+            use libhaystack::val::{Dict, Ref};
+            struct Records { recs: Vec<Dict> }
+            impl PathResolver for Records {
+                fn resolve_for(&self, root: &Dict, path: &Path) -> Value {
+                    if path.is_empty() || root.is_empty() { return Value::Null; }
+                    let mut cur = Value::Dict(root.clone());
+                    for segment in path.iter() {
+                        let name = segment.to_string();
+                        cur = match &cur { Value::Dict(d) => d.get(&name).cloned().unwrap_or(Value::Null), _ => Value::Null };
+                        if cur.is_null() { break; }
+                    }
+                    cur
+                }
+                fn resolve(&self, _path: &Path) -> Value { Value::Null }
+                fn resolve_ref(&self, id: &Ref) -> Option<Dict> {
+                    self.recs.iter().find(|rec| matches!(rec.get("id"), Some(Value::Ref(r)) if r == id)).cloned()
+                }
+            }
+            let rec = |id: &str, next: Option<&str>| { let mut d = Dict::new(); d.insert("id".into(), Value::make_ref(id));
+                if let Some(n) = next { d.insert("chainRef".into(), Value::make_ref(n)); } d };
+            // (records, target, expected): straight chain, cycle through the first ref, cycle behind the first ref, self loop,
+            // dangling ref, a ref that resolves to a record without the tag
+            let cases: Vec<(Vec<Dict>, &str, bool)> = vec![
+                (vec![rec("p", Some("a")), rec("a", Some("b")), rec("b", Some("c")), rec("c", None)], "c", true),
+                (vec![rec("p", Some("a")), rec("a", Some("b")), rec("b", Some("a"))], "z", false),
+                (vec![rec("p", Some("a")), rec("a", Some("b")), rec("b", Some("c")), rec("c", Some("b"))], "z", false),
+                (vec![rec("p", Some("a")), rec("a", Some("b")), rec("b", Some("c")), rec("c", Some("b"))], "c", true),
+                (vec![rec("p", Some("p"))], "z", false),
+                (vec![rec("p", Some("a"))], "z", false),
+                (vec![rec("p", Some("a")), rec("a", None)], "z", false),
+                (vec![rec("p", Some("a")), { let mut d = Dict::new(); d.insert("id".into(), Value::make_ref("a")); d }, rec("b", Some("a"))], "b", false),
+            ];
+            for (i, (recs, target, want)) in cases.into_iter().enumerate() {
+                let text = format!("chainRef *== @{target}");
+                let filter = Filter::try_from(text.as_str()).expect("filter text");
+                let db = Records { recs };
+                let first = db.recs[0].clone();
+                let cx = EvalContext::make(&first, &DEFAULT_NS, &db);
+                println!("B {i}");
+                let got = filter.eval(&cx);
+                if got != want {
+                    println!("RESULT enum:wildcard-cycles case {i}: {text} over {:?} = {got}, expected {want}", db.recs);
+                    std::process::exit(3);
+                }
+            }
+            println!("RESULT enum:wildcard-cycles 8 ref-chain shapes (straight, cycles through and behind the first ref, self loop, dangling, tag missing) terminate with the right answer");
         }
         // ---- C07 enumerator: a small universe of filters x records against an oracle written from the filter semantics; exit 3 on mismatch
         "enum:filter-eval" => {
